@@ -1,6 +1,7 @@
 import WindVerif.Proofs.RecordFile
 import WindVerif.Proofs.JsonRecords
 import WindVerif.Proofs.RecFileM
+import WindVerif.Proofs.RecFileSeq
 /-!
 # C13 — Records survive save/load and record files are sequences of records
 
@@ -152,6 +153,179 @@ theorem json_recfile_reopen (names : List RecFile.Str) (hn : names.Nodup) (conte
     (RecFile.ofContent (((RecFile.ofContent content).run (jsonFmt names) ops).saveText ['\n'])).records (jsonFmt names) =
       ((RecFile.ofContent content).run (jsonFmt names) ops).records (jsonFmt names) := by
   first | exact WindVerif.RecFile.json_recfile_reopen .. | (apply WindVerif.RecFile.json_recfile_reopen <;> assumption)
+
+/-!
+### the inherited `Sequence` / `MutableSequence` interface of record files: `index`, `count`, `in`, `remove`, `clear`
+
+Model `Model/RecFileSeq.lean` (the mixin methods of `_collections_abc.py` over `f[i]` / the overridden `__iter__`, which
+return *loaded records*; they are compared with `==`), proofs `Proofs/RecFileSeq.lean`; `Py.pyListIndex` = `list.index`
+(`Core/PyListSeq.lean`, characterised in C11).
+-/
+
+/-- `f.index(r, start, stop)` on a file all of whose positions load is `rs.index(r, start, stop)` of the presented
+records `rs` — the same position, `ValueError` exactly when the list raises it -/
+theorem recfile_index_spec {R : Type} [DecidableEq R] (F : Fmt R) (f : RecFile) (rs : List R)
+    (hrs : f.records F = rs.map some) (r : R) (start stop : Option Int) :
+    f.indexRec F r start stop = match Py.pyListIndex rs r start stop with
+      | some k => .ok k
+      | none => .error .valueError := by
+  first | exact WindVerif.RecFile.indexRec_spec .. | (apply WindVerif.RecFile.indexRec_spec <;> assumption)
+
+/-- … and on ANY file: a position `k` inside the bounds that does not load, with only loading records different from `r`
+between the start and `k`, makes `index` raise the exception of `load` for position `k` (as `f[k]` does) -/
+theorem recfile_index_load_error {R : Type} [DecidableEq R] (F : Fmt R) (f : RecFile) (r : R)
+    (start stop : Option Int) (k : Nat)
+    (h1 : WindVerif.LineFile.seqStart f.slots.length start ≤ k)
+    (h2 : WindVerif.LineFile.seqBelow (WindVerif.LineFile.seqStop f.slots.length stop) k = true)
+    (h3 : (f.records F)[k]? = some none)
+    (h4 : ∀ j, WindVerif.LineFile.seqStart f.slots.length start ≤ j → j < k →
+      ∃ x, (f.records F)[j]? = some (some x) ∧ x ≠ r) :
+    f.indexRec F r start stop = .error (.loadError k) := by
+  first | exact WindVerif.RecFile.indexRec_load_error .. | (apply WindVerif.RecFile.indexRec_load_error <;> assumption)
+
+/-- the fuel of the `index` loop suffices on every record file -/
+theorem recfile_indexGo_fuel {R : Type} [DecidableEq R] (F : Fmt R) (f : RecFile) (r : R) (stop : Option Int)
+    (fuel p : Nat) (h : f.slots.length - p < fuel) :
+    f.indexGo F r stop fuel p = f.indexGo F r stop (f.slots.length - p + 1) p := by
+  first | exact WindVerif.RecFile.indexGo_fuel .. | (apply WindVerif.RecFile.indexGo_fuel <;> assumption)
+
+/-- `f.count(r)` when every position loads: `rs.count(r)` -/
+theorem recfile_count_spec {R : Type} [DecidableEq R] (F : Fmt R) (f : RecFile) (rs : List R)
+    (hrs : f.records F = rs.map some) (r : R) : f.countRec F r = .ok (rs.count r) := by
+  first | exact WindVerif.RecFile.countRec_spec .. | (apply WindVerif.RecFile.countRec_spec <;> assumption)
+
+/-- `r in f` when every position loads: membership in the presented records -/
+theorem recfile_contains_spec {R : Type} [DecidableEq R] (F : Fmt R) (f : RecFile) (rs : List R)
+    (hrs : f.records F = rs.map some) (r : R) : f.containsRec F r = .ok (decide (r ∈ rs)) := by
+  first | exact WindVerif.RecFile.containsRec_spec .. | (apply WindVerif.RecFile.containsRec_spec <;> assumption)
+
+/-- `r in f` / `f.count(r)` on ANY file are scans of the presented list (`containsList` / `countList`: `True` at the first
+equal record resp. the number of equal records; the exception of `load` at the first position met that does not load) -/
+theorem recfile_contains_count_general {R : Type} [DecidableEq R] (F : Fmt R) (f : RecFile) (r : R) :
+    f.containsRec F r = containsList r (f.records F) 0 ∧ f.countRec F r = countList r (f.records F) 0 0 :=
+  ⟨WindVerif.RecFile.containsRec_eq F f r, WindVerif.RecFile.countRec_eq F f r⟩
+
+/-- `f.remove(r)` when every position loads: the first record equal to `r` is removed; `ValueError` when there is none -/
+theorem recfile_remove_spec {R : Type} [DecidableEq R] (F : Fmt R) (f : RecFile) (rs : List R)
+    (hrs : f.records F = rs.map some) (r : R) :
+    (r ∈ rs → ∃ f', f.removeRec F r = .ok f' ∧ f'.records F = (rs.erase r).map some ∧ f'.source = f.source ∧
+      f'.slots = f.slots.eraseIdx (rs.idxOf r)) ∧
+    (r ∉ rs → f.removeRec F r = .error .valueError) := by
+  first | exact WindVerif.RecFile.removeRec_spec .. | (apply WindVerif.RecFile.removeRec_spec <;> assumption)
+
+/-- `f.clear()` when every position loads: nothing is left, nothing is raised, the source is as before -/
+theorem recfile_clear_spec {R : Type} (F : Fmt R) (f : RecFile) (rs : List R) (hrs : f.records F = rs.map some) :
+    f.clearRec F = (⟨f.source, []⟩, none) := by
+  first | exact WindVerif.RecFile.clearRec_spec .. | (apply WindVerif.RecFile.clearRec_spec <;> assumption)
+
+/-- COMPARISON IS ON RECORDS, NOT ON TEXTS: a file whose position 0 holds ANY text that loads as `a` (say a needlessly
+quoted source line) — `index(a)` is `0` and `remove(a)` removes position 0, whatever equal records follow -/
+theorem index_first_equal {R : Type} [DecidableEq R] (F : Fmt R) (f : RecFile) (a : R) (s : Slot) (rest : List Slot)
+    (hs : f.slots = s :: rest) (hl : F.load (f.raw s) = some a) :
+    f.indexRec F a none none = .ok 0 ∧ f.removeRec F a = .ok { f with slots := rest } := by
+  first | exact WindVerif.RecFile.index_first_equal .. | (apply WindVerif.RecFile.index_first_equal <;> assumption)
+
+/-- … in particular after `append(a)`: the appended record (stored in canonical form at the end) is found at position 0,
+and `remove(a)` deletes the source line, not the appended text -/
+theorem index_first_equal_append {R : Type} [DecidableEq R] (F : Fmt R) (f : RecFile) (a : R) (s : Slot)
+    (rest : List Slot) (hs : f.slots = s :: rest) (hl : F.load (f.raw s) = some a) :
+    (f.appendRec F a).indexRec F a none none = .ok 0 ∧
+    (f.appendRec F a).removeRec F a = .ok { f with slots := rest ++ [.txt (F.save a)] } := by
+  first | exact WindVerif.RecFile.index_first_equal_append .. | (apply WindVerif.RecFile.index_first_equal_append <;> assumption)
+
+/-- every edit, `remove` and `clear` included, keeps the invariant and never writes the source (`remove` may be given
+any record: it only compares) -/
+theorem recfile_inv_step2 {R : Type} [DecidableEq R] (F : Fmt R) (P : R → Prop) (hmem : F.OkMem P) {f : RecFile}
+    (hf : Inv F P f) (op : Op2 R) (hop : ∀ r ∈ op.recs, P r) (hl : op = .base .reverse → Loads F P f.source) :
+    Inv F P (f.step2 F op) ∧ (f.step2 F op).source = f.source := by
+  first | exact WindVerif.RecFile.inv_step2 .. | (apply WindVerif.RecFile.inv_step2 <;> assumption)
+
+/-- … for a whole history -/
+theorem recfile_inv_run2 {R : Type} [DecidableEq R] (F : Fmt R) (P : R → Prop) (hmem : F.OkMem P) (ops : List (Op2 R))
+    (f : RecFile) (hf : Inv F P f) (hops : ∀ op ∈ ops, ∀ r ∈ op.recs, P r)
+    (hl : Op2.base .reverse ∈ ops → Loads F P f.source) :
+    Inv F P (f.run2 F ops) ∧ (f.run2 F ops).source = f.source := by
+  first | exact WindVerif.RecFile.inv_run2 .. | (apply WindVerif.RecFile.inv_run2 <;> assumption)
+
+/-- the presented records after a history with `remove` / `clear` are the Python list operations applied in turn -/
+theorem recfile_records_run2 {R : Type} [DecidableEq R] (F : Fmt R) (P : R → Prop) (hmem : F.OkMem P)
+    (ops : List (Op2 R)) (f : RecFile) (hf : Inv F P f) (hl : Loads F P f.source)
+    (hops : ∀ op ∈ ops, ∀ r ∈ op.recs, P r) :
+    (f.run2 F ops).records F = ops.foldl (fun l op => op.onList l) (f.records F) := by
+  first | exact WindVerif.RecFile.records_run2 .. | (apply WindVerif.RecFile.records_run2 <;> assumption)
+
+/-- EDIT, SAVE, REOPEN with `remove` and `clear` in the history (`Op2`; if `reverse` occurs, every source line must load
+into the domain) -/
+theorem recfile_reopen_roundtrip2 {R : Type} [DecidableEq R] (F : Fmt R) (P : R → Prop) (hok : F.Ok P)
+    (hmem : F.OkMem P) (h1 : F.OneLine P) (source : List RecFile.Str) (hsrc : ∀ l ∈ source, '\n' ∉ l)
+    (ops : List (Op2 R)) (hops : ∀ op ∈ ops, ∀ r ∈ op.recs, P r) (hl : Op2.base .reverse ∈ ops → Loads F P source) :
+    (RecFile.ofContent (((RecFile.open source).run2 F ops).saveText ['\n'])).records F =
+      ((RecFile.open source).run2 F ops).records F := by
+  first | exact WindVerif.RecFile.reopen_roundtrip2 .. | (apply WindVerif.RecFile.reopen_roundtrip2 <;> assumption)
+
+/-- the csv / tsv instance (`k` string fields) -/
+theorem csv_recfile_reopen2 (d : Char) (hd : IsDelim d) (k : Nat) (source : List RecFile.Str)
+    (hsrc : ∀ l ∈ source, '\n' ∉ l) (ops : List (Op2 (List RecFile.Str)))
+    (hops : ∀ op ∈ ops, ∀ r ∈ op.recs, csvP k r)
+    (hl : Op2.base .reverse ∈ ops → Loads (csvFmt d k) (csvP k) source) :
+    (RecFile.ofContent (((RecFile.open source).run2 (csvFmt d k) ops).saveText ['\n'])).records (csvFmt d k) =
+      ((RecFile.open source).run2 (csvFmt d k) ops).records (csvFmt d k) :=
+  WindVerif.RecFile.reopen_roundtrip2 (csvFmt d k) (csvP k) (WindVerif.RecFile.csvFmt_ok d hd k)
+    (WindVerif.RecFile.csvFmt_okMem d hd k) (WindVerif.RecFile.csvFmt_oneLine d hd k) source hsrc ops hops hl
+
+/-! non-vacuity of the inherited interface: a source whose line 0 is the NON-canonical text `"a","b"` of the record
+`(a, b)`, line 1 another record; `append((a, b))` stores the canonical `a,b\r\n` at the end -/
+
+/-- `index((a, b))` is 0 (not 2), `count` is 2, `remove((a, b))` deletes the source line and keeps the appended text; the
+saved file then holds the canonical form; an absent record: `ValueError`; bounds as `list.index` -/
+example :
+    let F := csvFmt ',' 2
+    let a := ["a".toList, "b".toList]
+    let f := (RecFile.open ["\"a\",\"b\"".toList, "c,d".toList]).appendRec F a
+    f.slots = [.src 0, .src 1, .txt "a,b\r\n".toList] ∧
+    (f.indexRec F a none none).toOption = some 0 ∧
+    (f.indexRec F a (some 1) none).toOption = some 2 ∧
+    (f.indexRec F a (some (-2)) (some (-1))).toOption = none ∧
+    Py.pyListIndex [a, ["c".toList, "d".toList], a] a (some 1) none = some 2 ∧
+    Py.pyListIndex [a, ["c".toList, "d".toList], a] a (some (-2)) (some (-1)) = none ∧
+    (f.countRec F a).toOption = some 2 ∧ (f.containsRec F a).toOption = some true ∧
+    (f.containsRec F ["a".toList, "x".toList]).toOption = some false ∧
+    (f.removeRec F a).toOption.map (·.slots) = some [.src 1, .txt "a,b\r\n".toList] ∧
+    (f.removeRec F a).toOption.map (·.saveText ['\n']) = some "c,d\na,b\r\n".toList ∧
+    (f.removeRec F ["a".toList, "x".toList]).toOption = none ∧
+    f.records F = [a, ["c".toList, "d".toList], a].map some := by
+  decide
+
+/-- the hypotheses of `index_first_equal` on that file -/
+example :
+    let F := csvFmt ',' 2
+    let f := RecFile.open ["\"a\",\"b\"".toList, "c,d".toList]
+    f.slots = .src 0 :: [.src 1] ∧ F.load (f.raw (.src 0)) = some ["a".toList, "b".toList] := by
+  decide
+
+/-- a position that does not load (one field only) before the record looked for: `index`, `count`, `in`, `remove` raise
+the exception of `load` for position 1; with a start behind it `index` finds the record; `clear` pops position 2, then
+stops at position 1 -/
+example :
+    let F := csvFmt ',' 2
+    let a := ["a".toList, "b".toList]
+    let f := RecFile.open ["c,d".toList, "lonely".toList, "a,b".toList]
+    errOf (f.indexRec F a none none) = some (.loadError 1) ∧ errOf (f.countRec F a) = some (.loadError 1) ∧
+    errOf (f.containsRec F a) = some (.loadError 1) ∧ errOf (f.removeRec F a) = some (.loadError 1) ∧
+    (f.indexRec F a (some 2) none).toOption = some 2 ∧
+    (f.containsRec F ["c".toList, "d".toList]).toOption = some true ∧
+    f.clearRec F = (⟨f.source, [.src 0, .src 1]⟩, some .loadError) := by
+  decide
+
+/-- a history with `remove` and `clear`: the written records are in the domain, the source lines load -/
+example :
+    let F := csvFmt ',' 2
+    let f := (RecFile.open ["\"a\",\"b\"".toList, "c,d".toList]).run2 F
+      [.base (.append ["a".toList, "b".toList]), .remove ["a".toList, "b".toList], .base .reverse]
+    f.records F = [["a".toList, "b".toList], ["c".toList, "d".toList]].map some ∧
+    f.saveText ['\n'] = "a,b\r\nc,d\r\n".toList ∧
+    (f.step2 F .clear).slots = [] := by
+  decide
 
 /-! non-vacuity: a 3-line csv source with a needlessly quoted field; `f[1] = …`, `insert(0, …)`, `reverse()`, save, reopen -/
 
